@@ -46,7 +46,7 @@ def run(ctx):
         wevents.append(roundtrip.data_event(inst, rng, prop="C06"))
         ctx.evaluations += 1
         ctx.case(["write-side", inst])
-    slim = [[{k2: v for k2, v in e.items() if k2 not in ("text", "opts")}] for e in wevents]
+    slim = [[roundtrip.slim_data(e)] for e in wevents]
     fails, _ = ctx.validate("Trace_RoundTrip", {"traces": slim})
     for tid, l, clause in fails:
         ev = wevents[tid]
